@@ -54,6 +54,17 @@ VF_E int* v_begin(V& v) { return v.begin(); }
 VF_E int* v_end(V& v) { return v.end(); }
 VF_E int* v_rbegin_base(V& v) { return v.rbegin().base(); }
 VF_E int* v_rend_base(V& v) { return v.rend().base(); }
+VF_E int const* v_cbegin(V const& v) { return v.cbegin(); }
+VF_E int const* v_cend(V const& v) { return v.cend(); }
+VF_E int const* v_begin_c(V const& v) { return v.begin(); }
+VF_E int const* v_end_c(V const& v) { return v.end(); }
+VF_E int const* v_crbegin_base(V const& v) { return v.crbegin().base(); }
+VF_E int const* v_crend_base(V const& v) { return v.crend().base(); }
+VF_E int const* v_rbegin_c_base(V const& v) { return v.rbegin().base(); }
+VF_E int const* v_rend_c_base(V const& v) { return v.rend().base(); }
+VF_E int const* v_front_c(V const& v) { return &v.front(); }
+VF_E int const* v_back_c(V const& v) { return &v.back(); }
+VF_E int const* v_data_c(V const& v) { return v.data(); }
 VF_E size_type v_size(V const& v) { return v.size(); }
 VF_E size_type v_capacity(V const& v) { return v.capacity(); }
 VF_E size_type v_max_size(V const& v) { return v.max_size(); }
